@@ -166,7 +166,15 @@ def run(tier, seed, replay):
         if why:
             oracle_fail.append(dict(request=l[:600], implementation=o[:600], why=why))
     rep.cov["backend_late_first_frame"] = dict(cases=nlate, rule="1-3 server frames with up to 21 broadcasts each before the first frame of a freshly connected client app, then several server frames between two client frames")
-    extra_evals = nback + nlate
+    nleave = 12 if tier == "quick" else 200
+    leave = [backendx.gen_leave(rng) for _ in range(nleave)]
+    leave_lines = ["backendx " + "/".join(st) for st, _ in leave]
+    for l, o, (_, sent) in zip(leave_lines, run_lines(harness_bin("kernels"), leave_lines, shards=min(8, len(leave_lines))), leave):
+        why = backendx.judge_leave(o, sent)
+        if why:
+            oracle_fail.append(dict(request=l[:600], implementation=o[:600], why=why))
+    rep.cov["backend_one_client_leaves"] = dict(cases=nleave, rule="two clients over the real backend; one drops its socket in the server frame in which the other one's messages (five channels) are read")
+    extra_evals = nback + nlate + nleave
     for l, a, b, e in zip(lines, impl, model, expect):
         if a != b:
             diverged.append(dict(request=l[:300], implementation=a[:300], model=b[:300]))
